@@ -355,6 +355,15 @@ func (s *sharedEntryAttributes) GetSchemaKeys() []string {
 	return nil
 }
 
+// keyLevelNames returns the key names of a list in the order of the key levels of the tree: paths reach the tree as
+// string slices in which utils.ToStrings has put the key values in the alphabetical order of their key names,
+// whatever the order of the key statement is.
+func keyLevelNames(schemaKeys []string) []string {
+	names := slices.Clone(schemaKeys)
+	sort.Strings(names)
+	return names
+}
+
 // getAggregatedDeletes is called on levels that have no schema attached, meaning key schemas.
 // here we might delete the whole branch of the tree, if all key elements are being deleted
 // if not, we continue with regular deltes
@@ -1072,9 +1081,7 @@ func (s *sharedEntryAttributes) ImportConfig(ctx context.Context, t importer.Imp
 			var exists bool
 			var actualEntry Entry = s
 			var keyChild Entry
-			for _, keySchema := range s.schema.GetContainer().GetKeys() {
-
-				keyElemName := keySchema.Name
+			for _, keyElemName := range keyLevelNames(s.GetSchemaKeys()) {
 
 				keyTransf := t.GetElement(keyElemName)
 				if keyTransf == nil {
@@ -1438,8 +1445,12 @@ func (s *sharedEntryAttributes) getKeyName() (string, error) {
 	// only Contaieners have keys, so check for that
 	switch sch := ancestorWithSchema.GetSchema().GetSchema().(type) {
 	case *sdcpb.SchemaElem_Container:
-		// return the name of the levelUp-1 key
-		return sch.Container.GetKeys()[levelUp-1].Name, nil
+		// return the name of the levelUp-1 key level
+		names := make([]string, 0, len(sch.Container.GetKeys()))
+		for _, k := range sch.Container.GetKeys() {
+			names = append(names, k.Name)
+		}
+		return keyLevelNames(names)[levelUp-1], nil
 	}
 
 	// we probably called the function on a LeafList or LeafEntry which is not a valid call to be made.
